@@ -60,3 +60,91 @@ Example C24_nonvacuous :
   exists E, build is None = inr E /\ chk_frames is E = true /\
             existsb (gedge_eqb (2, 3, KSched)) E = false /\ existsb (gedge_eqb (1, 2, KSched)) E = true.
 Proof. vm_compute. repeat split. eexists. repeat split. Qed.
+
+(** ** The DEFAULT handler: conflicts of the Quil-T frames themselves, no premise on the handler
+
+    Blocks summarised by the model of [DefaultHandler] (Model/DefaultInfo.v over the C26 model
+    Model/Frames.v; see Props/C22.v for the reading of [keys], [avail], [dinstr], [default_build],
+    [term_ok]).  [d_conflict keys avail d e]: one of the two instructions uses a frame that the
+    other uses or blocks - on the frames [Frames.matching_frames] reports, not on numbers. *)
+From QV Require Model.Frames.
+From QV Require Import Model.DefaultInfo Proofs.DefaultInfoProofs.
+
+Theorem C24_default_conflict_meaning :
+  forall (keys : list Frames.frame) (avail : list N) (d e : dinstr),
+    d_conflict keys avail d e = true <->
+    exists ud bd ue be f,
+      Frames.matching_frames keys avail (d_frame d) = Some (ud, bd) /\
+      Frames.matching_frames keys avail (d_frame e) = Some (ue, be) /\
+      ((In f ud /\ (In f ue \/ In f be)) \/ (In f ue /\ (In f ud \/ In f bd))).
+Proof. exact d_conflict_spec. Qed.
+
+(** The conflict relation [build] sees on the numbered summaries is exactly that one. *)
+Theorem C24_default_conflict_is_fconflict :
+  forall (keys : list Frames.frame) (avail : list N) (d e : dinstr),
+    fconflict (default_info keys avail d) (default_info keys avail e) = d_conflict keys avail d e.
+Proof. exact fconflict_default_iff. Qed.
+
+(** (i) for the default handler. *)
+Theorem C24_default_handler_conflicts_ordered :
+  forall (keys : list Frames.frame) (avail : list N) (ds : list dinstr) (t : option dinstr)
+         (E : list gedge) (p q : nat) (d e : dinstr),
+    default_build keys avail ds t = inr E ->
+    nth_error ds p = Some d -> nth_error ds q = Some e -> (p < q)%nat ->
+    d_conflict keys avail d e = true ->
+    clos_trans N (krel KStable E) (1 + N.of_nat p) (1 + N.of_nat q) /\
+    (d_sched d = true -> d_sched e = true ->
+     clos_trans N (krel KSched E) (1 + N.of_nat p) (1 + N.of_nat q)).
+Proof. exact default_conflicts_ordered. Qed.
+
+(** (ii) for the default handler, the well-formedness premise discharged ([d_frame_pair]:
+    positions p < q of the block holding instructions with [d_conflict], both scheduled when the
+    flag is set). *)
+Theorem C24_default_handler_edges_justified :
+  forall (keys : list Frames.frame) (avail : list N) (ds : list dinstr) (t : option dinstr)
+         (E : list gedge) (a b : N) (k : kind),
+    NoDup keys -> term_ok t = true -> default_build keys avail ds t = inr E -> In (a, b, k) E ->
+    (k = KStable ->
+     a = 0 \/ b = N.succ (N.of_nat (length ds)) \/ d_frame_pair keys avail ds false a b) /\
+    (k = KSched ->
+     a = 0 \/ b = N.succ (N.of_nat (length ds)) \/ d_frame_pair keys avail ds true a b).
+Proof. exact default_edges_justified. Qed.
+
+(** (iii) for the default handler. *)
+Theorem C24_default_handler_nonconflicting_unordered :
+  forall (keys : list Frames.frame) (avail : list N) (ds : list dinstr) (t : option dinstr)
+         (E : list gedge) (p q : nat) (d e : dinstr),
+    NoDup keys -> term_ok t = true -> default_build keys avail ds t = inr E ->
+    nth_error ds p = Some d -> nth_error ds q = Some e -> d_conflict keys avail d e = false ->
+    ~ In (1 + N.of_nat p, 1 + N.of_nat q, KStable) E /\ ~ In (1 + N.of_nat p, 1 + N.of_nat q, KSched) E.
+Proof. exact default_nonconflicting_unordered. Qed.
+
+(** Non-vacuity: the block of [C22_default_handler_nonvacuous] (frames 0 "a", 0 1 "ab", 1 "a";
+    PULSE 0 "a" ; NONBLOCKING PULSE 1 "a" ; FENCE 1 ; RESET 0).  Conflicts, on the frames: the
+    two pulses do not conflict, nor do the nonblocking pulse and RESET 0; every other pair does
+    (pulse/fence on 0 1 "ab" which the pulse blocks, pulse/reset on 0 "a", nonblocking
+    pulse/fence on 1 "a", fence/reset on 0 1 "ab").  The block builds, the checker accepts the
+    graph, there is no direct frame edge 1 -> 2, and the unscheduled RESET gets StableOrdering
+    but no Scheduled in-edges. *)
+Example C24_default_handler_nonvacuous :
+  let keys := [([0], 0); ([0; 1], 1); ([1], 0)] in
+  let avail := [0; 1] in
+  let nomem := Some ([], [], []) in
+  let ds := [MkD (Frames.FPlay Frames.KPulse true ([0], 0)) OClassical nomem;
+             MkD (Frames.FPlay Frames.KPulse false ([1], 0)) OClassical nomem;
+             MkD (Frames.FFence [1]) OClassical nomem;
+             MkD (Frames.FReset (Some 0)) OClassical nomem] in
+  NoDup keys /\
+  map (fun p => d_conflict keys avail (fst p) (snd p)) (pairs ds)
+  = [false; true; true; true; false; true] /\
+  exists E, default_build keys avail ds None = inr E /\
+            chk_frames (default_block keys avail ds) E = true /\
+            existsb (gedge_eqb (1, 2, KStable)) E = false /\
+            existsb (gedge_eqb (1, 3, KSched)) E = true /\
+            existsb (gedge_eqb (3, 4, KStable)) E = true /\
+            existsb (fun e => N.eqb (gdst e) 4 && kind_eqb (gkind e) KSched) E = false.
+Proof.
+  cbv zeta. split; [apply nodupF_NoDup; reflexivity|].
+  split; [vm_compute; reflexivity|].
+  eexists. split; [vm_compute; reflexivity|]. vm_compute. repeat split.
+Qed.
